@@ -138,6 +138,9 @@ def gen_class(r, name, unstable_p=0.0, depth=0):
     attr_names = r.sample(NAMES, r.randint(1, 4))
     for n in attr_names:
         items.append([gen_attr(r, n)])
+    if r.random() < 0.1:
+        # the same attribute declared twice (declaration, later definition): two statements with one location
+        items.append([gen_attr(r, r.choice(attr_names))])
     for _ in range(r.choice([0, 1, 1, 2, 3])):
         mname = r.choice(FUNCS + ["__init__", "m"])
         first = r.choice(["self", "self", "self", "cls", None])
